@@ -148,7 +148,7 @@ def check_all_axis(ctx, pid, spec, ds, menu, make_fresh, extra=None):
         if len(masks) == n_in and n_in > 1:
             if any(not np.array_equal(m, masks[0]) for m in masks[1:]):
                 ctx.fail("%s/same-cases/mask" % pid, dict(extra, spec=spec, fields=F), "valid masks differ between inputs for axis=All")
-            if len(obs_arrays) == n_in and any(not cmpx.arrays_equal(o, obs_arrays[0]) for o in obs_arrays[1:]):
+            if len(obs_arrays) == n_in and not any(d.get("own_obs") for d in spec["inputs"]) and any(not cmpx.arrays_equal(o, obs_arrays[0]) for o in obs_arrays[1:]):
                 ctx.fail("%s/same-cases/obs" % pid, dict(extra, spec=spec, fields=F), "observation arrays differ between inputs")
 
 
